@@ -19,7 +19,8 @@ def _gen(module, cls):
         import numpy as np
         from artap.individual import Individual
         mod = importlib.import_module(module)
-        dims = [_FIXED_DIM[cls]] if cls in _FIXED_DIM else ([2, 5, 10] if cls == "Michaelwicz" else [1, 2, 3, 4])
+        # small dimensions plus one large one (overflow / accumulation effects show only there)
+        dims = [_FIXED_DIM[cls]] if cls in _FIXED_DIM else ([2, 5, 10] if cls == "Michaelwicz" else [1, 2, 3, 4, 17, 30])
         for d in dims:
             p = getattr(mod, cls)(**({} if cls in _FIXED_DIM else {"dimension": d}))
             p.logger.setLevel(logging.CRITICAL)
@@ -34,6 +35,11 @@ def _gen(module, cls):
                 else:
                     v = [rng.uniform(b[0], b[1]) for b in bounds]
                 pts.append((v, False))
+            if len(bounds) == 1:
+                # one-dimensional functions: a dense scan of the whole box (narrow peaks / dips are missed by a few random points)
+                n_scan = 400 if tier == "quick" else 4000
+                lo, hi = bounds[0]
+                pts += [([lo + (hi - lo) * t / n_scan], False) for t in range(n_scan + 1)]
             for v, at_opt in pts:
                 for kind in ("py", "np"):
                     vec = [float(c) for c in v] if kind == "py" else [np.float64(c) for c in v]
@@ -45,8 +51,8 @@ def _gen(module, cls):
 
 
 for _c in _DEDUCTIVE + _NUMERIC:
-    scenario("artap.benchmark_functions:%s.evaluate" % _c, bound="dimensions 1..4 (fixed-dimension functions: theirs), corners, random points, documented optimum; python and numpy floats")(
+    scenario("artap.benchmark_functions:%s.evaluate" % _c, bound="dimensions 1..4, 17, 30 (fixed-dimension functions: theirs), corners, random points, documented optimum, dense scan for 1-D boxes; python and numpy floats")(
         _gen("artap.benchmark_functions", _c))
 for _c in _ROBUST:
-    scenario("artap.benchmark_robust:%s.evaluate" % _c, bound="corners, random points, documented optimum; python and numpy floats")(
+    scenario("artap.benchmark_robust:%s.evaluate" % _c, bound="corners, random points, documented optimum, dense scan for 1-D boxes; python and numpy floats")(
         _gen("artap.benchmark_robust", _c))
